@@ -72,6 +72,7 @@ func c16Roots(c *core.Ctx) []*ssa.Function {
 }
 
 func runC16(c *core.Ctx) {
+	checkSharedBigIntsNotMutated(c, "C16.shared-values-immutable", "native/...")
 	roots := c16Roots(c)
 	cg := c.P.CG()
 	stop := func(f *ssa.Function) bool {
